@@ -13,10 +13,12 @@ public rng= argument — EVERY shuffle order for small pattern counts.
      (object and probe) == full-batch loss and gradient, and the loss recorded by the real reconstruct()
      loop (learning rate 0) == full-batch loss; J = 12: every divisor x a family of orders.
  (c) Determinism: equal seeds -> bit-identical loss histories; reconstruct(reset=True) repeats the
-     history; different seeds differ (vacuity guard for the shuffle actually mattering).
+     history after EVERY history of continue/reset calls up to depth 2 (3 thorough); different seeds differ
+     (vacuity guard for the shuffle actually mattering).
 """
 from __future__ import annotations
 
+import copy
 import itertools
 import math
 import warnings
@@ -268,6 +270,47 @@ def run_history(J, obj_type, modes, seed, pseed, batch_size, iters=3, reset_agai
         return h1, h2, [float(x) for x in P.ptycho.iter_losses]
 
 
+RESET_OPS = ["cont1", "cont2", "reset"]
+
+
+def w_reset_histories(item, seed=0, depth=3):
+    """Every history of {continue 1 iteration, continue 2 iterations, reset-and-run 3 iterations} up to `depth`
+    operations after an initial seeded run: whenever a reset run occurs, its loss history must be bit-identical to a
+    fresh run from the same seed — whatever happened before (a stale generator, optimizer or scheduler survives a
+    reset only along particular histories)."""
+    J, obj_type, modes, bs, pseed = item
+    t = Tally()
+    iters = 3
+    fresh, _, lf = run_history(J, obj_type, modes, seed, pseed, bs, iters=iters)
+    for d in range(1, depth + 1):
+        for hist in itertools.product(RESET_OPS, repeat=d):
+            if hist[-1] != "reset" or ("reset" in hist[:-1] and not any(h != "reset" for h in hist)):
+                pass
+            if hist[-1] != "reset":
+                continue  # only histories that end in the observed reset run
+            case = {"part": "reset_history", "J": J, "obj_type": obj_type, "modes": modes, "batch_size": bs, "ptycho_seed": pseed, "history": list(hist)}
+            with warnings.catch_warnings():
+                warnings.simplefilter("ignore")
+                P = build_problem(tiny_cfg(J, obj_type, modes, 1), seed, [J, modes, 1])
+                P.ptycho.rng = int(pseed)
+                P.ptycho.reconstruct(num_iters=iters, reset=True, batch_size=bs, optimizer_params=copy.deepcopy(ADAM))
+                ok_first = np.array(P.ptycho.iter_losses, dtype=np.float64).tobytes() == fresh
+                for op in hist:
+                    if op == "cont1":
+                        P.ptycho.reconstruct(num_iters=1, batch_size=bs)
+                    elif op == "cont2":
+                        P.ptycho.reconstruct(num_iters=2, batch_size=bs)
+                    else:
+                        P.ptycho.reconstruct(num_iters=iters, reset=True, batch_size=bs, optimizer_params=copy.deepcopy(ADAM))
+                got = np.array(P.ptycho.iter_losses, dtype=np.float64)
+            t.case(key=case, nontrivial=any(h != "reset" for h in hist), outcome=[round(float(x), 7) for x in got])
+            if not ok_first:
+                t.fail({"relation": "same_seed_same_loss_history", "part": "reset_history"}, case, f"fresh run from seed {pseed} differs from the reference fresh run")
+            if got.tobytes() != fresh:
+                t.fail({"relation": "reset_repeats_loss_history", "part": "reset_history", "after": "continued_run" if any(h != "reset" for h in hist) else "reset_only"}, case, f"history {list(hist)}: the final reset run gave {got.tolist()}, a fresh run from the same seed gives {lf}")
+    return t
+
+
 def w_determinism(item, seed=0):
     J, obj_type, modes, bs, pseed = item
     t = Tally()
@@ -322,6 +365,8 @@ def run(ctx):
     ctx.pmap(w_invariance, inv, chunk=1, label="loss/gradient batch invariance", seed=ctx.seed, quick=q)
     det = [(J, ot, m, bs, ps) for J in (4, 12) for ot, m in (("complex", 1), ("potential", 2)) for bs in ([1, 2] if J == 4 else [3, 5]) for ps in ([11] if q else [11, 12, 13])]
     m = ctx.pmap(w_determinism, det, chunk=1, label="seeded determinism", seed=ctx.seed)
+    rh = [(4, "complex", 1, 2, 11), (12, "potential", 2, 5, 11)] if q else [(J, ot, mm, bs, 11) for J, bs in ((4, 1), (4, 2), (12, 5)) for ot, mm in (("complex", 1), ("potential", 2))]
+    ctx.pmap(w_reset_histories, rh, chunk=1, label="reset after every history", seed=ctx.seed, depth=2 if q else 3)
     if m.extra["different_seed_cases"] and m.extra["different_seed_differs"] == 0:
         raise Broken("different seeds never changed the loss history: the shuffle does not matter, determinism check is vacuous")
     ctx.coverage["different_seed_differs"] = f"{int(m.extra['different_seed_differs'])}/{int(m.extra['different_seed_cases'])}"
@@ -340,6 +385,8 @@ def replay(ctx, case):
         t = w_batcher(case["n"], seed=ctx.seed, ratios=[0.0])
     elif part in ("invariance", "loop"):
         t = w_invariance((case["J"], case["obj_type"], case["modes"], case["slices"], case["loss_type"]), seed=ctx.seed, quick=True)
+    elif part == "reset_history":
+        t = w_reset_histories((case["J"], case["obj_type"], case["modes"], case["batch_size"], case["ptycho_seed"]), seed=ctx.seed, depth=len(case["history"]))
     elif part == "determinism":
         t = w_determinism((case["J"], case["obj_type"], case["modes"], case["batch_size"], case["ptycho_seed"]), seed=ctx.seed)
     for f in t.fails:
